@@ -15,7 +15,7 @@ TIERS = {
     "thorough": dict(examples=480, shards=16, timeout_s=10800, shrink_s=300),
 }
 RULE = (
-    "Hypothesis draws a node system from the supported class (DESIGN §2.1), a clock (simulated; wall clock on ~15%), a "
+    "Hypothesis draws a node system from the supported class (DESIGN §2.1), a clock (simulated; wall clock on ~25%, ending with one episode whose startup() takes 2 s), a "
     "history of 2-4 episodes of the forms reset step* stop / run+ stop / reset (re-)started without stop / stop twice, with "
     "a user-thread delay of 0-30 ms before every call, and 1-2 gate scenarios: a chosen thread (supervisor at sync.enter / "
     "sync.before_wait, a node thread or a connection thread at one of its task starts) is parked through the REX_VERIF gate "
@@ -39,7 +39,7 @@ GATES = ["sync.enter", "sync.before_wait", "task.start:node", "task.start:conn"]
 def _case(draw, tier):
     spec = draw(sysgen.system_spec(max_eps=1, min_steps=3, max_steps=6, max_nodes=4))
     spec["carry"] = draw(st.booleans())
-    wall = draw(st.sampled_from([False] * 6 + [True]))
+    wall = draw(st.sampled_from([False] * 3 + [True]))
     eps = []
     for _ in range(draw(st.integers(2, 4))):
         kind = draw(st.sampled_from(["run", "step", "step"]))
@@ -103,7 +103,7 @@ class Gate:
             self.release.wait(5.0)  # never block the code under test for ever
 
 
-def _check_record(res, rec, e, prev_eps, sup, n_user_steps, tag):
+def _check_record(res, rec, e, prev_eps, sup, n_user_steps, tag, wall_slack=None):
     """isolation clauses on the record of the e-th episode; returns the graph's episode counter of this record."""
     counter = None
     for name, nr in rec.nodes.items():
@@ -126,6 +126,13 @@ def _check_record(res, rec, e, prev_eps, sup, n_user_steps, tag):
         if first_sched > 1e3:
             res.fail("C05.first_step_not_near_time_0", dict(node=name, ts_scheduled=first_sched))
             return None
+        if wall_slack is not None and not nr.inputs:
+            # wall clock: the end of a source node's first step is *measured*; it lies a scheduling latency after its
+            # (computed) start - never the whole duration of the nodes' startup() routines (2 s here) later
+            first_start, first_end = float(onp.atleast_1d(st_.ts_start)[0]), float(onp.atleast_1d(st_.ts_end)[0])
+            if first_end - first_start > wall_slack:
+                res.fail("C05.episode_clock_does_not_start_at_0", dict(node=name, first_start=first_start, first_end=first_end, slack=wall_slack))
+                return None
         if st_.inputs is not None:
             for in_name, w in st_.inputs.items():
                 a = onp.asarray(w.data.a)
@@ -173,6 +180,7 @@ def check(case) -> CaseResult:
     try:
         run = AsyncRun(spec, clock=case["clock"])
         g = run.graph
+        slow_startup = 0.0
         budget = 25.0 if case["clock"] == "SIMULATED" else 45.0
         e = 0
         prev_counter = None
@@ -192,7 +200,7 @@ def check(case) -> CaseResult:
                     prev_counter = None
                     return True
                 raise
-            c = _check_record(res, rec, e, prev_counter, spec["supervisor"], n_user, tag)
+            c = _check_record(res, rec, e, prev_counter, spec["supervisor"], n_user, tag, wall_slack=slow_startup if slow_startup else None)
             if c is None and res.failures:
                 return False
             if case["clock"] == "SIMULATED":
@@ -327,6 +335,22 @@ def check(case) -> CaseResult:
         if case.get("storm"):
             prev_counter = None
             res.count("storm_stops", len(case["storm"]))
+        # ---------------- wall clock: a slow user startup() must not eat episode time (one dedicated episode)
+        if case["clock"] == "WALL_CLOCK":
+            slow_startup = 2.0
+            list(run.nodes.values())[-1].startup_sleep = slow_startup
+            res.label("slow_startup_episode")
+            label = "slow_startup"
+            try:
+                gs = run.start_state(e)
+                gs = run.call(f"{label}:run", g.run, gs, budget_s=budget)
+                run.call(f"{label}:stop", g.stop, budget_s=budget)
+                prev_counter = None
+                if not record_and_check(label, 1):
+                    return res
+                e += 1
+            finally:
+                list(run.nodes.values())[-1].startup_sleep = 0.0
         res.nontrivial = e >= 2 and (active_stop or gated)
         if active_stop:
             res.label("stop_while_threads_progressing")
